@@ -14,7 +14,7 @@ PROPERTY_GROUPS = {
     'C13': ['httprange', 'rep'],
     'C14': ['events', 'scte35', 'mp4'],
     'C15': ['auth'],
-    'C16': ['events', 'bufreader', 'httprange', 'rep', 'timing', 'mps', 'errors', 'mp4', 'load', 'timesource', 'lookup'],
+    'C16': ['events', 'bufreader', 'httprange', 'rep', 'timing', 'mps', 'errors', 'mp4', 'load', 'timesource', 'lookup', 'auth'],
     'C19': ['dt'],
     'C20': ['bufreader'],
 }
